@@ -84,12 +84,14 @@ def stage(unit, workdir, repo, verif):
             repo_dir = os.path.join(workdir, "repo")
             if crate_dir is None:
                 crate_dir = repo_dir
-            r = subprocess.run(["rsync", "-a", "--exclude", "/target", "--exclude", ".git", "--exclude", "/fuzz",
+            r = subprocess.run(["rsync", "-a", "--exclude", "/target", "--exclude", ".git",
                                 repo.rstrip("/") + "/", repo_dir + "/"], capture_output=True, text=True)
             if r.returncode != 0:
                 raise StagingError("rsync failed: " + r.stderr[-500:])
         elif kind == "lock":
             _copy(os.path.join(repo, "Cargo.lock"), os.path.join(crate_dir, "Cargo.lock"))
+        elif kind == "shared_repo":
+            _copy(os.path.join(verif, op[1]), os.path.join(workdir, "repo", op[2]))
         elif kind == "shared":
             _copy(os.path.join(verif, op[1]), os.path.join(crate_dir, op[2]))
         elif kind == "mount":
